@@ -81,3 +81,61 @@ def compute_step(u):
         else:
             u.ensure(u.get(res, "accepted") is False, "rejected=>not_accepted")
     u.cover("end")
+
+
+@unit("C07.ValidatingEvaluator", ["C07", "C11"], ["pygradflow.eval.ValidatingEvaluator._eval_obj", "pygradflow.eval.ValidatingEvaluator._eval_obj_grad", "pygradflow.eval.ValidatingEvaluator._eval_cons", "pygradflow.eval.ValidatingEvaluator._eval_cons_jac", "pygradflow.eval.ValidatingEvaluator._eval_lag_hess", "pygradflow.eval.Evaluator.obj", "pygradflow.eval.astype", "pygradflow.eval.ValidatingEvaluator.__init__"], config={"max_paths": 200})
+def validating_evaluator(u):
+    """the fault model used everywhere else: a callback value that is not finite makes the evaluator raise
+    EvalError (and nothing else); a finite value is handed on unchanged (same object: astype is a no-op for float64);
+    with num_cons == 0 the constraint callbacks are not called at all"""
+    from pyvc.values import Mat
+    from .c04_transform import StoreLog, UserProblem
+
+    params = mk_params(u)
+    empty = u.path.choose("no constraints")
+    problem = mk_problem(u, m=0) if empty else mk_problem(u)
+    if not empty:
+        u.assume(problem.fields["num_cons"] > 0)
+    n, m = problem.fields["__n__"], problem.fields["num_cons"]
+    up = UserProblem(u, problem)
+    finite = {}
+    log = StoreLog(u)
+
+    def isfinite(it, v):
+        key = id(v.cell) if hasattr(v, "cell") else id(v)
+        b = finite.setdefault(key, it.path.bool("finite"))
+        return b
+
+    u.it.lib["numpy.isfinite"] = isfinite
+    u.it.lib["math.isfinite"] = isfinite
+    ev = u.construct("pygradflow.eval.ValidatingEvaluator", problem, params)
+    x = u.vec("x", n, region="USER")
+    y = u.vec("y", m, region="USER")
+    kinds = ["obj", "obj_grad", "cons", "cons_jac", "lag_hess"]
+    k = u.path.choose_n(5, "component")
+    kind = kinds[k]
+    u.it.abstract["pygradflow.eval.warn_hessian_pattern"] = lambda it: None
+    if kind == "lag_hess":
+        # the symmetry diagnostics (set/zip over COO triplets) are observers: seen through "no raise"
+        u.it.lib["numpy.allclose"] = lambda it, a, b, **kw: it.path.bool("sym_close")
+        from pyvc.npmodel import BUILTINS
+
+        BUILTINS_set = BUILTINS["set"]
+    kindres, val = u.raised(lambda: u.method(ev, kind, x, y) if kind == "lag_hess" else u.method(ev, kind, x))
+    called = [c for c in up.calls if c[0] == kind]
+    if empty and kind in ("cons", "cons_jac"):
+        u.ensure(kindres == "ok" and not called, f"{kind}:no_constraints=>callback_not_called,no_raise")
+        return
+    u.ensure(len(called) == 1 and called[0][1] is x, f"{kind}:callback_called_once_at_x")
+    ret = up.ret.get(kind)
+    fin = finite.get(id(ret.coo[3].cell) if isinstance(ret, Mat) else (id(ret.cell) if hasattr(ret, "cell") else id(ret)))
+    if kindres == "raise":
+        u.ensure(val.exc.name() == "EvalError", f"{kind}:raises_only{{EvalError}}", desc=f"escaping {val.exc!r} at {val.origin}")
+        if fin is not None:
+            u.ensure(z3.Not(fin), f"{kind}:raises_only_for_a_non-finite_value")
+    else:
+        if fin is not None:
+            u.ensure(fin, f"{kind}:returns=>value_is_finite")
+        u.ensure(val is ret, f"{kind}:finite_value_handed_on_unchanged(same_object)")
+    u.ensure(ev.fields["num_evals"] is not None, "counter_present")
+    u.cover("end")
